@@ -81,10 +81,16 @@ WriteExt(ss, t, data) ==
 RECURSIVE ExtAll(_, _)                      \* for type, data in b: self.writeExtended(type, data)
 ExtAll(ss, runs) == IF runs = <<>> THEN ss ELSE ExtAll(WriteExt(ss, Head(runs)[1], Head(runs)[2]), Tail(runs))
 
+(* addWindowBytes (as of /repo 4fef648): while the buffered extended runs are re-sent `closing` is held
+   back (closing, self.closing = self.closing, 0 ... finally restore), then loseConnection() once. *)
 AddWindow(ss, n) ==
     LET s1 == [ss EXCEPT !.rwin = @ + n]
         s2 == IF s1.buf # <<>> THEN Write([s1 EXCEPT !.buf = <<>>], s1.buf) ELSE s1
-    IN IF s2.ext # <<>> THEN ExtAll([s2 EXCEPT !.ext = <<>>], s2.ext) ELSE s2
+    IN IF s2.ext # <<>>
+       THEN LET s3 == ExtAll([s2 EXCEPT !.ext = <<>>, !.closing = FALSE], s2.ext)
+                s4 == [s3 EXCEPT !.closing = s2.closing]
+            IN IF s4.closing THEN LoseConn(s4) ELSE s4
+       ELSE s2
 
 (* ssh_CHANNEL_CLOSE on either side: closeReceived() -> loseConnection(); remoteClosed = True;
    if both closed: channelClosed *)
@@ -142,7 +148,8 @@ RDeliverData ==
            r1 == IF rcv.gone THEN r0
                  ELSE IF refuse THEN SendClose(r0)
                  ELSE LET r2 == [r0 EXCEPT !.lwin = @ - n]
-                      IN IF r2.lwin < cfg.win \div 2 THEN RAdjustTo(r2, cfg.win - r2.lwin) ELSE r2
+                      \* /repo 93887cc: "< size // 2  or  == 0"
+                      IN IF r2.lwin < cfg.win \div 2 \/ r2.lwin = 0 THEN RAdjustTo(r2, cfg.win - r2.lwin) ELSE r2
        IN /\ rcv' = r1
           /\ Emit([e |-> "rdeliver", m |-> m,
                    got |-> IF rcv.gone \/ refuse THEN <<>> ELSE << <<m[2], m[3]>> >>,
